@@ -127,11 +127,12 @@ pub fn generate_morsels(total_rows: usize, morsel_size: usize, source_id: usize)
         return Vec::new();
     }
 
-    let num_morsels = (total_rows + morsel_size - 1) / morsel_size;
+    let num_morsels = total_rows.div_ceil(morsel_size);
     let mut morsels = Vec::with_capacity(num_morsels);
 
     for (id, start) in (0..total_rows).step_by(morsel_size).enumerate() {
-        let end = (start + morsel_size).min(total_rows);
+        // saturating: a morsel size near usize::MAX means "one morsel", not an overflow
+        let end = start.saturating_add(morsel_size).min(total_rows);
         morsels.push(Morsel::new(id, source_id, start, end));
     }
 
